@@ -21,8 +21,18 @@ func renderTypeGraph(g []typeShape, site string) string {
 	sb.WriteString("JSIGHT 0.3\n\n")
 	nm := func(i int) string { return fmt.Sprintf("@t%d", i) }
 	for i, s := range g {
+		switch s.K {
+		case "any", "empty":
+			fmt.Fprintf(&sb, "TYPE %s %s\n\n", nm(i+1), s.K)
+			continue
+		case "regex":
+			fmt.Fprintf(&sb, "TYPE %s regex\n/ab+/\n\n", nm(i+1))
+			continue
+		}
 		fmt.Fprintf(&sb, "TYPE %s\n", nm(i+1))
 		switch s.K {
+		case "scalar":
+			sb.WriteString("12\n")
 		case "leaf":
 			sb.WriteString("{\"k\": 1}\n")
 		case "ref":
